@@ -734,8 +734,11 @@ var percent = func() []int {
 func genSpec(t *rapid.T, wave bool) *caseSpec {
 	spec := &caseSpec{Wave: wave}
 	// 0 free sync/async mix; 1 production leaf shape (sync root, async below); 2 all sync
-	// (metadata / root pipelines); 3 all async
-	shape := rapid.SampledFrom([]int{0, 0, 0, 0, 0, 1, 1, 2, 3}).Draw(t, "shape")
+	// (metadata / root pipelines); 3 all async; 4 burst (see genBurst)
+	shape := rapid.SampledFrom([]int{0, 0, 0, 0, 0, 1, 1, 2, 3, 4}).Draw(t, "shape")
+	if shape == 4 {
+		return genBurst(t, wave)
+	}
 	// (rapid's IntRange is biased towards the lower bound, SampledFrom is uniform)
 	depth := rapid.SampledFrom([]int{1, 2, 2, 3, 3, 3, 4, 4}).Draw(t, "depth")
 	allowPanic := rapid.SampledFrom([]bool{false, false, false, true, true}).Draw(t, "allowPanic")
@@ -824,21 +827,62 @@ func genSpec(t *rapid.T, wave bool) *caseSpec {
 	}
 	build(-1, 1)
 
-	if !wave {
-		var asyncIDs []int
-		for i := range spec.Nodes {
-			if spec.Nodes[i].Async {
-				asyncIDs = append(asyncIDs, i)
-			}
+	assignReleaseOrder(t, spec)
+	return spec
+}
+
+// genBurst: a root with 2-4 succeeding async children, each with 1-2 children that mostly fail
+// or panic (inline on the parent's worker, or on a worker of their own). In wave mode the
+// children are released together, so several failures / worker-side panics are handed to the
+// state machine at the same time.
+func genBurst(t *rapid.T, wave bool) *caseSpec {
+	spec := &caseSpec{Wave: wave}
+	excludeSyncPanicOnWorker := ev.Known(sigSyncPanicUnderAsync)
+	add := func(parent int, async bool, out outKind) int {
+		id := len(spec.Nodes)
+		spec.Nodes = append(spec.Nodes, nodeSpec{ID: id, Parent: parent, Async: async, Out: out})
+		if parent >= 0 {
+			spec.Nodes[parent].Children = append(spec.Nodes[parent].Children, id)
 		}
-		if len(asyncIDs) > 1 {
-			perm := rapid.Permutation(asyncIDs).Draw(t, "releaseOrder")
-			for prio, id := range perm {
-				spec.Nodes[id].Prio = prio
+		return id
+	}
+	root := add(-1, rapid.Bool().Draw(t, "rootAsync"), outOK)
+	k := rapid.SampledFrom([]int{2, 3, 4}).Draw(t, "children")
+	for c := 0; c < k; c++ {
+		child := add(root, true, outOK)
+		g := rapid.SampledFrom([]int{1, 1, 2}).Draw(t, "grandchildren")
+		for j := 0; j < g; j++ {
+			async := rapid.Bool().Draw(t, "async")
+			out := rapid.SampledFrom([]outKind{outOK, outFail, outFail, outPanic, outPanic, outPanic}).Draw(t, "outcome")
+			if out == outPanic && !async && excludeSyncPanicOnWorker {
+				out = outFail
+			}
+			id := add(child, async, out)
+			if out == outPanic {
+				spec.Nodes[id].PanicKind = rapid.SampledFrom(percent[:4]).Draw(t, "panicKind")
 			}
 		}
 	}
+	assignReleaseOrder(t, spec)
 	return spec
+}
+
+func assignReleaseOrder(t *rapid.T, spec *caseSpec) {
+	if spec.Wave {
+		return
+	}
+	var asyncIDs []int
+	for i := range spec.Nodes {
+		if spec.Nodes[i].Async {
+			asyncIDs = append(asyncIDs, i)
+		}
+	}
+	if len(asyncIDs) > 1 {
+		perm := rapid.Permutation(asyncIDs).Draw(t, "releaseOrder")
+		for prio, id := range perm {
+			spec.Nodes[id].Prio = prio
+		}
+	}
 }
 
 // ---- properties ----------------------------------------------------------------------------------
